@@ -114,6 +114,44 @@ class Prop(core.Prop):
                  center180=case.get('flags', [1, 1])[1], blocks=blocks)
         return r, vars_
 
+    def check_times(self, f, rd, mode, scope):
+        """time_bounds[i] is (tau0, tau1) of the i-th time block, time its mid point (bpch1) or begin (bpch2)"""
+        vs = []
+        want = [[a, b] for a, b in self.taus]
+        keys = f.variables.keys()
+        for k, exp in (('tau0', [a for a, b in self.taus]), ('tau1', [b for a, b in self.taus]),
+                       ('time_bounds', want)):
+            if k in keys:
+                got = np.asarray(f.variables[k][...], 'd').tolist()
+                if got != exp:
+                    vs.append(viol('time-bounds', (rd, mode, k), '%s is %r; the block headers say %r' % (k, got, exp),
+                                   **scope))
+        if 'time' in keys and rd == 'bpch1':
+            got = np.asarray(f.variables['time'][...], 'd').tolist()
+            exp = [(a + b) / 2 for a, b in self.taus]
+            if got != exp:
+                vs.append(viol('time-bounds', (rd, mode, 'time'), 'time is %r; block mid points are %r' % (got, exp), **scope))
+        return vs
+
+    def check_ids(self, f, vars_, key, rd, mode, scope):
+        """category and tracer identifiers are those of the block header"""
+        vs = []
+        for v in vars_:
+            cat, off, num, name, scale, unit, nl = v
+            kk = key(v)
+            if kk not in f.variables.keys():
+                continue
+            var = f.variables[kk]
+            got = (getattr(var, 'category', None), getattr(var, 'tracerid', None))
+            try:
+                got = (str(got[0]).strip(), int(got[1]))
+            except Exception:
+                pass
+            if got != (cat, num - off):
+                vs.append(viol('identifiers', (rd, mode), '%s: (category, tracerid) attributes %r; block header has %r'
+                               % (kk, got, (cat, num - off)), **scope))
+        return vs
+
     def run_one(self, case):
         P = lib.pnc()
         from PseudoNetCDF.pncgen import pncgen
@@ -178,6 +216,8 @@ class Prop(core.Prop):
             t1 = np.asarray(fn.variables['tau1'][...], 'd').tolist()
             if t0 != [a for a, b in self.taus] or t1 != [b for a, b in self.taus]:
                 vs.append(viol('time-bounds', ('bpch1', 'noscale'), 'tau0 %r tau1 %r' % (t0, t1), **scope))
+            vs += self.check_times(fn, 'bpch1', 'noscale', scope)
+            vs += self.check_ids(fn, vars_, key, 'bpch1', 'noscale', scope)
             out = os.path.join(d, 'out.bpch')
             with quiet():
                 pncgen(fn, out, format='bpch', verbose=0).close()
@@ -201,6 +241,8 @@ class Prop(core.Prop):
             with quiet():
                 fs = P.pncopen(path, format='bpch1')
             ntrans += 1
+            vs += self.check_times(fs, 'bpch1', 'scaled', scope)
+            vs += self.check_ids(fs, vars_, key, 'bpch1', 'scaled', scope)
             for k, v in enumerate(vars_):
                 cat, off, num, name, scale, unit, nl = v
                 kk = key(v)
@@ -262,6 +304,8 @@ class Prop(core.Prop):
                 if open(out3, 'rb').read() != open(out2, 'rb').read():
                     vs.append(viol('second-write-differs', ('ncf2bpch', 'scaled'), 'writing the same object twice '
                                    'gives different files', **scope))
+                vs += self.check_times(fb, 'bpch1', 'written', scope)
+                vs += self.check_ids(fb, vars_, key, 'bpch1', 'written', scope)
                 for k, v in enumerate(vars_):
                     kk = key(v)
                     a = np.asarray(fs.variables[kk][...], 'd')
@@ -294,6 +338,18 @@ class Prop(core.Prop):
                     f1 = P.pncopen(path, format='bpch1', noscale=ns)
                     f2 = P.pncopen(path, format='bpch2', noscale=ns)
                 ntrans += 2
+                mode = 'noscale' if ns else 'scaled'
+                vs += [x for x in self.check_times(f2, 'bpch2', mode, dict(scope, reader='bpch2'))]
+                vs += self.check_ids(f2, vars_, key, 'bpch2', mode, dict(scope, reader='bpch2'))
+                if ns:
+                    # the unscaled read of the alternative reader, written back, reproduces the bytes too
+                    outb = os.path.join(d, 'outb.bpch')
+                    with quiet():
+                        pncgen(f2, outb, format='bpch', verbose=0).close()
+                    ntrans += 1
+                    if open(outb, 'rb').read() != raw:
+                        vs.append(viol('rewrite-bytes', ('ncf2bpch', 'bpch2-noscale'),
+                                       'the bpch2 read written back differs from the original', reader='bpch2', **scope))
                 for v in vars_:
                     kk = key(v)
                     if kk in f1.variables.keys() and kk in f2.variables.keys():
